@@ -10,9 +10,8 @@ Theorems about `Model/Iter.lean`, the model of `AnalyticalPropagator.iter`, `Num
 `KeplerNum._iter`, `Ephem.iter`, `Date.range`, `Orbit.propagate/iter` re-binding and listener clearing.
 `⌊(stop − start)/step⌋` is always expressed by its two bracketing inequalities on `n`.
 Histories consist of `propagate`, `iter` (consumed fully, partly, not at all) and in-place modifications of an orbit by the user;
-`propagate_pure_partial` holds for every such history and every propagator kind provided what Sgp4 compares of an orbit
-(`Sgp4._state`: coordinates, date, form, frame) determines the orbit value — false when a drag term is changed in place
-(`Witness/C08.lean: sgp4_stale_after_drag_change`, known finding).
+`propagate_pure` holds for every such history and every propagator kind; for Sgp4 the orbit VALUE of the model has to be what
+`Sgp4._state` compares (coordinates, date, form, frame, drag terms — `Faithful`).
 -/
 namespace BeyondVerif.C08
 open BeyondVerif.Iter
@@ -259,6 +258,208 @@ theorem ephem_iter_dates_list (fuel order : Nat) (pts : List Int) (first last : 
 
 example : ephemIter 20 8 [0, 60, 120, 180, 240, 300, 360, 420, 480] (some (.list [])) none none none true = ⟨[], .done⟩ := by decide
 
+/-- without `step`, for an ephemeris whose points are sorted by date (`Ephem.__init__` sorts them): exactly the tabulated dates
+within `[start, stop]`, in order -/
+theorem ephem_iter_own_sorted (fuel order : Nat) (pts : List Int) (first last : Int) (hh : pts.head? = some first)
+    (hl : pts.getLast? = some last) (hsorted : pts.Pairwise (· ≤ ·)) (start stop : Int) (strict : Bool) (hfs : first ≤ start)
+    (hss : start ≤ stop) (hsl : stop ≤ last) :
+    ephemIter fuel order pts none (some start) (some (.at stop)) none strict
+      = ⟨pts.filter (fun d => decide (start ≤ d) && decide (d ≤ stop)), .done⟩ := by
+  rw [ephem_iter_own fuel order pts first last hh hl start stop strict hfs hss hsl, ownPts_sorted _ _ _ hsorted]
+
+/-- … and for a backward range the tabulated dates within `[stop, start]`, last first -/
+theorem ephem_iter_own_backward_sorted (fuel order : Nat) (pts : List Int) (first last : Int) (hh : pts.head? = some first)
+    (hl : pts.getLast? = some last) (hsorted : pts.Pairwise (· ≤ ·)) (start stop : Int) (strict : Bool) (hfs : first ≤ stop)
+    (hss : stop < start) (hsl : start ≤ last) :
+    ephemIter fuel order pts none (some start) (some (.at stop)) none strict
+      = ⟨pts.reverse.filter (fun d => decide (stop ≤ d) && decide (d ≤ start)), .done⟩ := by
+  rw [ephem_iter_own_backward fuel order pts first last hh hl start stop strict hfs hss hsl,
+    ownPtsBack_sorted _ _ _ (List.pairwise_reverse.mpr hsorted)]
+
+example : ephemIter 20 8 [0, 60, 120, 180, 240] none (some 50) (some (.at 200)) none true = ⟨[60, 120, 180], .done⟩ := by decide
+
+/-! ### start or stop outside the tabulated span: refused when `strict`, clamped otherwise -/
+
+/-- `strict=True` (default): a start before the first point is refused (forward range or no stop) -/
+theorem ephem_iter_strict_start_refused (fuel order : Nat) (pts : List Int) (first last : Int) (hh : pts.head? = some first)
+    (hl : pts.getLast? = some last) (start : Int) (st : Option Stop) (step : Option Int) (hlt : start < first)
+    (hnb : ∀ s, st = some s → ¬ s.resolve start < start) :
+    ephemIter fuel order pts none (some start) st step true = Run.fail .value := by
+  unfold ephemIter
+  cases st with
+  | none => simp [hh, hl, hlt, Run.fail]
+  | some s =>
+    have := hnb s rfl
+    simp [this, hh, hl, hlt, Run.fail]
+
+/-- `strict=True`: a stop after the last point is refused -/
+theorem ephem_iter_strict_stop_refused (fuel order : Nat) (pts : List Int) (first last : Int) (hh : pts.head? = some first)
+    (hl : pts.getLast? = some last) (start : Int) (s : Stop) (step : Option Int) (hfs : first ≤ start)
+    (hss : start ≤ s.resolve start) (hgt : last < s.resolve start) :
+    ephemIter fuel order pts none (some start) (some s) step true = Run.fail .value := by
+  have hnb : ¬ s.resolve start < start := by omega
+  have hnl : ¬ start < first := by omega
+  unfold ephemIter
+  simp [hnb, hh, hl, hnl, hgt, Run.fail]
+
+/-- `strict=True`: a backward range reaching out of the span on either side is refused -/
+theorem ephem_iter_strict_backward_refused (fuel order : Nat) (pts : List Int) (first last : Int) (hh : pts.head? = some first)
+    (hl : pts.getLast? = some last) (start : Int) (s : Stop) (step : Option Int) (hlt : s.resolve start < start)
+    (hout : last < start ∨ s.resolve start < first) :
+    ephemIter fuel order pts none (some start) (some s) step true = Run.fail .value := by
+  have hout' : start > last ∨ s.resolve start < first := hout
+  unfold ephemIter
+  simp only [hlt, if_true]
+  unfold ephemIterBackward
+  simp [hh, hl, hout', Run.fail]
+
+/-- `strict=False`, forward: the range is clamped to the span — the result is that of the strict call on
+`[max start first, min stop last]` (when that is not empty) -/
+theorem ephem_iter_clamped_forward (fuel order : Nat) (pts : List Int) (first last : Int) (hh : pts.head? = some first)
+    (hl : pts.getLast? = some last) (start stop : Int) (step : Option Int) (hss : start ≤ stop)
+    (hne : max start first ≤ min stop last) :
+    ephemIter fuel order pts none (some start) (some (.at stop)) step false
+      = ephemIter fuel order pts none (some (max start first)) (some (.at (min stop last))) step true := by
+  have hnb : ¬ stop < start := by omega
+  have hnb' : ¬ min stop last < max start first := by omega
+  have hnl' : ¬ max start first < first := by omega
+  have hng' : ¬ min stop last > last := by omega
+  unfold ephemIter
+  simp only [Stop.resolve, hnb, hnb', if_false, hh, hl, hnl', hng', Option.getD_none]
+  rcases lt_or_ge start first with h1 | h1
+  · have e1 : max start first = first := by omega
+    rcases lt_or_ge last stop with h2 | h2
+    · have e2 : min stop last = last := by omega
+      have h2' : stop > last := h2
+      simp [h1, h2', e1, e2]
+    · have e2 : min stop last = stop := by omega
+      have h2' : ¬ stop > last := by omega
+      simp [h1, h2', e1, e2]
+  · have e1 : max start first = start := by omega
+    have h1' : ¬ start < first := by omega
+    rcases lt_or_ge last stop with h2 | h2
+    · have e2 : min stop last = last := by omega
+      have h2' : stop > last := h2
+      simp [h1', h2', e1, e2]
+    · have e2 : min stop last = stop := by omega
+      have h2' : ¬ stop > last := by omega
+      simp [h1', h2', e1, e2]
+
+/-- `strict=False`, backward: clamped likewise to `[max stop first, min start last]` -/
+theorem ephem_iter_clamped_backward (fuel order : Nat) (pts : List Int) (first last : Int) (hh : pts.head? = some first)
+    (hl : pts.getLast? = some last) (start stop : Int) (step : Option Int) (hss : stop < start)
+    (hne : max stop first < min start last) :
+    ephemIter fuel order pts none (some start) (some (.at stop)) step false
+      = ephemIter fuel order pts none (some (min start last)) (some (.at (max stop first))) step true := by
+  have hnc' : ¬ (min start last > last ∨ max stop first < first) := by omega
+  unfold ephemIter
+  simp only [Stop.resolve, hss, hne, if_true]
+  unfold ephemIterBackward
+  simp only [hh, hl, hnc', if_false]
+  by_cases hc : start > last ∨ stop < first
+  · simp [hc]
+  · have e1 : min start last = start := by omega
+    have e2 : max stop first = stop := by omega
+    simp [hc, e1, e2]
+
+example : ephemIter 20 3 [0, 60, 120, 180, 240] none (some (-50)) (some (.at 500)) (some 100) false = ⟨[0, 100, 200], .done⟩ := by decide
+example : ephemIter 20 3 [0, 60, 120, 180, 240] none (some 500) (some (.at (-50))) (some 100) false = ⟨[240, 140, 40], .done⟩ := by decide
+example : ephemIter 20 3 [0, 60, 120, 180, 240] none (some 500) (some (.at (-50))) (some 100) true = Run.fail .value := by decide
+
+/-! ## `dates=` given as a `DateRange` object (`Date.range(s0, s1, st, inclusive=incl)`, built by the caller) -/
+
+/-- what iterating the object itself yields (`DateRange.__iter__`) -/
+def rangeRun (fuel : Nat) (s0 s1 st : Int) (incl : Bool) : Run := loop (rangeCond s1 st incl) yes st fuel s0
+
+/-- an inclusive constructible range is the contract grid (forward) -/
+theorem rangeRun_inclusive_forward (fuel n : Nat) (s0 s1 st : Int) (hs : 0 < st) (h1 : s0 + (n : Int) * st ≤ s1)
+    (h2 : s1 < s0 + ((n : Int) + 1) * st) (hf : n + 1 < fuel) : rangeRun fuel s0 s1 st true = ⟨grid s0 st n, .done⟩ := by
+  unfold rangeRun
+  rw [rangeCond_up hs]
+  exact loop_up yes s0 s1 st n fuel hs h1 h2 (fun _ _ => rfl) hf
+
+/-- … (backward) -/
+theorem rangeRun_inclusive_backward (fuel n : Nat) (s0 s1 st : Int) (hs : st < 0) (h1 : s1 ≤ s0 + (n : Int) * st)
+    (h2 : s0 + ((n : Int) + 1) * st < s1) (hf : n + 1 < fuel) : rangeRun fuel s0 s1 st true = ⟨grid s0 st n, .done⟩ := by
+  unfold rangeRun
+  rw [rangeCond_down hs]
+  exact loop_down yes s0 s1 st n fuel hs h1 h2 (fun _ _ => rfl) hf
+
+/-- an exclusive forward range stops before its stop: `s0 + k·st`, `k = 0 … n`, `n` the last with `s0 + n·st < s1` -/
+theorem rangeRun_exclusive_forward (fuel n : Nat) (s0 s1 st : Int) (hs : 0 < st) (h1 : s0 + (n : Int) * st < s1)
+    (h2 : s1 ≤ s0 + ((n : Int) + 1) * st) (hf : n + 1 < fuel) : rangeRun fuel s0 s1 st false = ⟨grid s0 st n, .done⟩ := by
+  unfold rangeRun
+  apply loop_exact _ _ _ _ _ _ _ _ hf
+  · intro k hk
+    refine ⟨?_, rfl⟩
+    have := cast_mul_mono hk (le_of_lt hs)
+    simp only [rangeCond, hs, if_true, Bool.false_eq_true, if_false, decide_eq_true_eq]
+    linarith
+  · simp only [rangeCond, hs, if_true, Bool.false_eq_true, if_false, decide_eq_false_iff_not, not_lt]
+    exact h2
+
+/-- **iter_dates_list** for a `DateRange` (analytical propagators): exactly the dates of the object -/
+theorem iter_dates_range (fuel : Nat) (epoch : Int) (selfStep : Option Int) (a : Args) (s0 s1 st : Int) (incl : Bool)
+    (hd : a.dates = some (.range s0 s1 st incl)) :
+    analyticalIter fuel epoch selfStep a = (true, rangeRun fuel s0 s1 st incl) := by
+  simp [analyticalIter, analyticalIterCore, hd, Dates.run, rangeRun]
+
+/-- … (ephemeris): a `DateRange` inside the tabulated span, either direction -/
+theorem ephem_iter_dates_range (fuel order : Nat) (pts : List Int) (first last : Int) (hh : pts.head? = some first)
+    (hl : pts.getLast? = some last) (hord : order ≤ pts.length) (s0 s1 st : Int) (incl : Bool)
+    (hdir : (0 < st ∧ first ≤ s0 ∧ s1 ≤ last) ∨ (st < 0 ∧ first ≤ s1 ∧ s0 ≤ last))
+    (start : Option Int) (stop : Option Stop) (step : Option Int) (strict : Bool) :
+    ephemIter fuel order pts (some (.range s0 s1 st incl)) start stop step strict = rangeRun fuel s0 s1 st incl := by
+  rw [ephemIter_dates]
+  simp only [Dates.run, rangeRun]
+  apply loop_ok_of_yes
+  intro d hd
+  rcases hdir with ⟨hs, ha, hb⟩ | ⟨hs, ha, hb⟩
+  · have := loop_range_mem_up s1 st incl hs fuel s0 d hd
+    exact interpOk_of hh hl hord (by omega) (by omega)
+  · have := loop_range_mem_down s1 st incl hs fuel s0 d hd
+    exact interpOk_of hh hl hord (by omega) (by omega)
+
+/-- … (numerical propagator), forward `DateRange`: whatever its step and its start relative to the epoch -/
+theorem numerical_iter_dates_range_forward (fuel order m : Nat) (epoch h : Int) (a : Args) (s0 s1 st : Int) (incl listening : Bool)
+    (hd : a.dates = some (.range s0 s1 st incl)) (hs : 0 < st) (hfw : s0 ≤ s1) (hm : s1 ≤ s0 + (m : Int) * h)
+    (hmo : order ≤ m + 1) (hf : m < fuel) :
+    numIter fuel order epoch h a listening = (true, rangeRun fuel s0 s1 st incl) := by
+  unfold numIter
+  simp only [hd]
+  obtain ⟨m', hreach, hord, hcore⟩ := numCore_forward fuel order h s0 s1 none (some (.range s0 s1 st incl)) listening m hfw hm hmo hf
+  rw [hcore, ephemIter_dates]
+  congr 1
+  simp only [Dates.run, rangeRun]
+  apply loop_ok_of_yes
+  intro d hd'
+  have := loop_range_mem_up s1 st incl hs fuel s0 d hd'
+  exact interpOk_of (grid_head _ _ _) (grid_getLast _ _ _) (by rw [grid_length]; exact hord (by simp)) this.1 (by omega)
+
+/-- … backward `DateRange` (negative step, stop before start): integrated backward, same dates -/
+theorem numerical_iter_dates_range_backward (fuel order m : Nat) (epoch h : Int) (a : Args) (s0 s1 st : Int) (incl listening : Bool)
+    (hd : a.dates = some (.range s0 s1 st incl)) (hs : st < 0) (hbw : s1 < s0) (hm : s0 + (m : Int) * (-h) ≤ s1)
+    (hmo : order ≤ m + 1) (hf : m < fuel) :
+    numIter fuel order epoch h a listening = (true, rangeRun fuel s0 s1 st incl) := by
+  unfold numIter
+  simp only [hd]
+  obtain ⟨m', hreach, hord, hcore⟩ := numCore_backward_dates fuel order h s0 s1 (.range s0 s1 st incl) listening m hbw hm hmo hf
+  rw [hcore, ephemIter_dates]
+  congr 1
+  simp only [Dates.run, rangeRun]
+  apply loop_ok_of_yes
+  intro d hd'
+  have := loop_range_mem_down s1 st incl hs fuel s0 d hd'
+  refine interpOk_of (first := s0 + (m' : Int) * (-h)) (last := s0) ?_ ?_ ?_ (by omega) this.2
+  · rw [List.head?_reverse, grid_getLast]
+  · rw [List.getLast?_reverse, grid_head]
+  · rw [List.length_reverse, grid_length]; exact hord
+
+example : numIter 20 8 0 60 { dates := some (.range 100 (-100) (-45) true) } false = (true, ⟨[100, 55, 10, -35, -80], .done⟩) := by decide
+example : numIter 20 8 0 60 { dates := some (.range 0 90 30 false) } false = (true, ⟨[0, 30, 60], .done⟩) := by decide
+example : rangeRun 20 100 (-100) (-45) true = ⟨grid 100 (-45) 4, .done⟩ :=
+  rangeRun_inclusive_backward 20 4 100 (-100) (-45) (by decide) (by decide) (by decide) (by decide)
+
 /-! ## NumericalPropagator.iter / KeplerNum._iter
 
 `h > 0` is the integration step (`propagator.step`), `m` ANY number of integration steps that reach stop and fill the
@@ -417,14 +618,25 @@ def Inv {V : Type} (w : World V) (s : St V) : Prop :=
   | none => True
   | some _ => w.kind ≠ .ephem
 
-/-- what `Sgp4.propagate` compares of the bound orbit with what its record was computed from determines the orbit value.
-TRUE of an orbit whose coordinates, date, form or frame are changed; FALSE when the user changes a drag term (`bstar`, `ndot`,
-`ndotdot`) in place: they are attributes of the orbit the record depends on, and `Sgp4._state` does not look at them. Vacuous for
-every other propagator. -/
+/-- adequacy of the abstraction for Sgp4: the abstract orbit value `V` (what the returned states `f v date` depend on) is
+determined by what `Sgp4.propagate` compares of the bound orbit with what its record was computed from — since 3d341d9 the
+coordinates, date, form, frame AND the drag terms `bstar`, `ndot`, `ndotdot`, i.e. every attribute of the orbit that reaches a
+dynamical field of the satellite record (`Tle.from_orbit` → `twoline2rv`). What it still ASSUMES: the other entries of the orbit
+(`name`, `norad_id`, `cospar_id`, `element_nb`, `revolutions`, `tle`, `type`, anything the user attached) reach only the labels
+of the TLE text and not the trajectory `sgp4` computes from the record — a statement about `Tle.from_orbit` and the `sgp4`
+package, not about the iteration code; it is exercised on the real API by the oracle (in-place changes of those entries,
+family `…-after-inplace-label-change`). Vacuous for every other propagator. `Witness/C08.lean: stale_when_not_faithful` shows
+the hypothesis cannot be dropped (it failed for the drag terms before 3d341d9). -/
 def Faithful {V : Type} (w : World V) : Prop :=
   w.kind = .sgp4 → ∀ a b : V, w.sameState a b = true → a = b
 
 theorem faithful_of_not_sgp4 {V : Type} (w : World V) (h : w.kind ≠ .sgp4) : Faithful w := fun hk => absurd hk h
+
+/-- `Faithful` holds whenever the values of the model ARE what is compared (`sameState` is equality): the harness' world -/
+theorem faithful_of_beq {V : Type} [BEq V] [LawfulBEq V] (w : World V) (h : w.sameState = fun a b => a == b) : Faithful w := by
+  intro _ a b hab
+  rw [h] at hab
+  exact eq_of_beq hab
 
 theorem inv_fresh {V : Type} (w : World V) (prev : List (Option Int)) (ver : Nat → Nat × Nat) :
     Inv w ({ prev := prev, ver := ver } : St V) := trivial
@@ -612,22 +824,13 @@ theorem call_result_pure {V R : Type} (w : World V) (f : V → Int → R) (cross
       | false =>
         simp only [Bool.false_eq_true, if_false, List.map_nil, events_nil]
 
-/- **propagate_pure**, full statement: for EVERY history of `propagate` / `iter` calls and of in-place modifications of the orbits by
-the user, for every propagator kind, the result of the next call equals the result of that call on fresh objects holding the
-current orbit values.  FALSE of the current code for Sgp4 when a drag term of the orbit (`bstar`, `ndot`, `ndotdot`) is changed in
-place after a first propagation (`Witness/C08.lean: sgp4_stale_after_drag_change`; known finding, proposed_fixes/C08-h):
-    theorem propagate_pure (w : World V) (f) (cross) (fuel nls : Nat) (hist : List Call) (c : Call) :
-      (exec w f cross fuel (runHist w f cross fuel { prev := List.replicate nls none } hist) c).2
-        = (exec w f cross fuel (freshOf (runHist w f cross fuel { prev := List.replicate nls none } hist)) c).2
-Proved below under `Faithful w` (nothing assumed for Kepler, J2, NonePropagator, KeplerNum, CW, Ephem: `propagate_pure_not_sgp4`;
-for Sgp4: the histories change coordinates / date / form / frame of the orbits, not their drag terms). -/
-
-/-- **propagate_pure_partial**: for EVERY history of `propagate` / `iter` calls and of in-place modifications of the orbits by the
-user (any orbits sharing the propagator, any listeners, iterators consumed fully, partly or not at all), the result of the next
-call equals the result of that call on fresh objects holding the current orbit values — provided, for Sgp4, that what it
-compares of an orbit determines the orbit (`Faithful`). In-place changes of the coordinates under Sgp4 are covered (they were
-the exception before c604b3e). -/
-theorem propagate_pure_partial {V R : Type} (w : World V) (f : V → Int → R) (cross : V → Int → Int → Bool) (fuel nls : Nat)
+/-- **propagate_pure**: for EVERY history of `propagate` / `iter` calls and of in-place modifications of the orbits by the user
+(their coordinates and, for Sgp4, their drag terms; any orbits sharing the propagator, any listeners, iterators consumed fully,
+partly or not at all), for EVERY propagator kind, the result of the next call equals the result of that call on fresh objects
+holding the current orbit values. `Faithful w` is the adequacy of the model's orbit values for Sgp4 (see its definition: it
+holds when they are what `Sgp4._state` compares, `faithful_of_beq`; nothing is assumed for the other kinds,
+`propagate_pure_not_sgp4`). Was `_partial` (false for drag-term changes) before 3d341d9. -/
+theorem propagate_pure {V R : Type} (w : World V) (f : V → Int → R) (cross : V → Int → Int → Bool) (fuel nls : Nat)
     (hist : List Call) (c : Call) (hF : Faithful w) :
     let s0 : St V := { prev := List.replicate nls none }
     let s := runHist (R := R) w f cross fuel s0 hist
@@ -642,12 +845,18 @@ theorem propagate_pure_not_sgp4 {V R : Type} (w : World V) (f : V → Int → R)
     let s0 : St V := { prev := List.replicate nls none }
     let s := runHist (R := R) w f cross fuel s0 hist
     (exec w f cross fuel s c).2 = (exec w f cross fuel (freshOf s) c).2 :=
-  propagate_pure_partial w f cross fuel nls hist c (faithful_of_not_sgp4 w hk)
+  propagate_pure w f cross fuel nls hist c (faithful_of_not_sgp4 w hk)
 
--- the hypothesis is satisfiable by an Sgp4 world whose orbit values ARE what Sgp4 compares (object, number of element changes)
-example : Faithful ({ kind := .sgp4, store := fun i k => (i, k.1), sameState := fun a b => a == b, epoch := fun _ => 0 } : World (Nat × Nat)) := by
-  intro _ a b h
-  simpa using h
+/-- **propagate_pure** for Sgp4 in the world the correspondence runs: orbit values = (object, number of changes of its
+elements, number of changes of its drag term), all of it compared -/
+theorem propagate_pure_sgp4 {R : Type} (store : Nat → Nat × Nat → Nat × Nat × Nat) (f : Nat × Nat × Nat → Int → R)
+    (cross : Nat × Nat × Nat → Int → Int → Bool) (fuel nls : Nat) (hist : List Call) (c : Call) :
+    let w : World (Nat × Nat × Nat) := { kind := .sgp4, store := store, sameState := fun a b => a == b, epoch := fun _ => 0 }
+    let s0 : St (Nat × Nat × Nat) := { prev := List.replicate nls none }
+    let s := runHist (R := R) w f cross fuel s0 hist
+    (exec w f cross fuel s c).2 = (exec w f cross fuel (freshOf s) c).2 := by
+  intro w
+  exact propagate_pure w f cross fuel nls hist c (faithful_of_beq w rfl)
 
 /-- every yielded state is what a direct propagation of the receiver, as it is now, to that date gives
 (in the model: `f (current value of orbit i) date`) -/
